@@ -29,6 +29,8 @@ type Ctx struct {
 	MayBeRefused bool // the spec breaks a restriction goag documents: refusing it is fine
 	NeedClient   bool
 
+	// JSONTimeLayouts: date-time schemas of the JSON dialect may carry x-goag-go-time-format
+	JSONTimeLayouts bool
 	// LowerCompNames: also draw component keys that start with a lower-case letter
 	LowerCompNames bool
 
@@ -300,7 +302,12 @@ func (c *Ctx) rawSchema(depth int, pos string) *Schema {
 	var s *Schema
 	switch kind {
 	case "prim":
-		s = c.prim("prim").Schema()
+		pr := c.prim("prim")
+		// (C06 only) a date-time property / item may carry a Go layout of its own
+		if c.JSONTimeLayouts {
+			pr = c.maybeLayout(pr, "prim")
+		}
+		s = pr.Schema()
 	case "any":
 		s = &Schema{}
 	case "array":
@@ -663,12 +670,22 @@ func (c *Ctx) ParamSchema(in string, label string) *Schema {
 	s := p.Schema()
 	// (RFC1123Z text contains a comma: not inside form-style arrays)
 	isArray := in == "query" && rapid.IntRange(0, 3).Draw(t, label+"_array") == 0 && p.Layout() != "time.RFC1123Z"
-	if rapid.IntRange(0, 3).Draw(t, label+"_ref") == 0 && c.AllowSchema(s, "component") {
+	// (arrays of a string component: the one array whose elements need no parsing, only a conversion)
+	if isArray && rapid.IntRange(0, 3).Draw(t, label+"_array_of_strings") == 0 {
+		p = Prims[0]
+		s = p.Schema()
+	}
+	refOdds := 3
+	if isArray {
+		refOdds = 1
+	}
+	if rapid.IntRange(0, refOdds).Draw(t, label+"_ref") == 0 && c.AllowSchema(s, "component") {
 		name := c.CompName("Prm", label)
 		r := c.AddSchema(name, s)
 		if c.AllowSchema(r, in) {
 			s = r
 			c.Tag("param:schema-ref")
+			s = c.maybeAliasHops(s, in, label)
 		}
 	}
 	if isArray {
@@ -679,6 +696,22 @@ func (c *Ctx) ParamSchema(in string, label string) *Schema {
 		}
 	}
 	return s
+}
+
+// maybeAliasHops: now and then the reference goes through one or two alias components
+// (`A: {$ref: B}`) before it reaches the schema.
+func (c *Ctx) maybeAliasHops(ref *Schema, pos, label string) *Schema {
+	for hops := rapid.SampledFrom([]int{0, 0, 0, 1, 1, 2}).Draw(c.T, label+"_alias_hops"); hops > 0; hops-- {
+		name := c.CompName("Aka", label+"_alias")
+		a := c.AddSchema(name, &Schema{Ref: ref.Ref})
+		if !c.AllowSchema(a, pos) {
+			delete(c.comps().Schemas, name)
+			break
+		}
+		ref = a
+		c.Tag("param:schema-ref-through-alias")
+	}
+	return ref
 }
 
 // Param draws a parameter declaration for location in; it may be placed into
@@ -833,6 +866,10 @@ func BaseForms() []BaseForm {
 		{Name: "first-server-without-path", Servers: []*Server{{URL: "https://h.example"}, {URL: "https://staging.example/v2"}}, Expected: ""},
 		{Name: "first-server-variable-host-only", Servers: []*Server{{URL: "https://{region}.api.example.com", Variables: map[string]*ServerVariable{"region": {Default: "eu"}}}, {URL: "/v3"}}, Expected: ""},
 		{Name: "server-variable-empty-default", Servers: []*Server{{URL: "https://h.example/api{version}", Variables: map[string]*ServerVariable{"version": {Default: ""}}}}, Expected: "/api"},
+		// (the base path is a path like r.URL.Path: decoded; the url of a server spells it escaped)
+		{Name: "server-path-percent-encoded", Servers: []*Server{{URL: "https://h.example/caf%C3%A9/v1"}}, Expected: "/caf\u00e9/v1"},
+		{Name: "server-path-non-ascii", Servers: []*Server{{URL: "https://h.example/caf\u00e9"}}, Expected: "/caf\u00e9"},
+		{Name: "server-path-with-space", Servers: []*Server{{URL: "https://h.example/my%20api/v2"}}, Expected: "/my api/v2"},
 		{Name: "server-variable-used-twice", Servers: []*Server{{URL: "https://{region}.api.example.com/{region}/{version}", Variables: map[string]*ServerVariable{"region": {Default: "eu"}, "version": {Default: "v2"}}}}, Expected: "/eu/v2"},
 	}
 }
